@@ -10,6 +10,7 @@
 """
 import ast
 import builtins
+import functools
 import inspect
 import operator as pyop
 import os
@@ -373,7 +374,15 @@ class Env:
         raise RaiseEx(NameError(n))
 
     def set(self, n, v):
-        # assignment inside a comprehension scope / nested def binds locally, as in Python
+        # assignment inside a comprehension scope / nested def binds locally, as in Python - unless declared `nonlocal`
+        if n in getattr(self, 'nonlocals', ()):
+            e = self.parent
+            while e is not None:
+                if n in e.loc:
+                    e.loc[n] = v
+                    return
+                e = e.parent
+            raise Unsupported(f'nonlocal {n}: no binding found in an enclosing interpreted scope')
         self.loc[n] = v
 
     def set_existing(self, n, v):
@@ -607,6 +616,10 @@ class Interp:
             return f(self, *args, **kwargs)
         if isinstance(f, types.MethodType):
             return self.call(f.__func__, [f.__self__] + args, kwargs)
+        if isinstance(f, functools.partial):
+            merged = dict(f.keywords)
+            merged.update(kwargs)
+            return self.call(f.func, list(f.args) + args, merged)
         if isinstance(f, (classmethod, staticmethod)):
             raise Unsupported('raw descriptor call')
         if is_repo_func(f):
@@ -801,11 +814,52 @@ class Interp:
     def s_Pass(self, s, env):
         pass
 
-    def s_Global(self, s, env):
-        raise Unsupported('global statement')
+    def s_Match(self, s, env):
+        """match statement, the subset: class patterns without sub-patterns (isinstance), value / singleton patterns, or-patterns,
+        captures and the wildcard, guards"""
+        subject = self.ev(s.subject, env)
+
+        def matches(p):
+            if isinstance(p, ast.MatchClass):
+                if p.patterns or p.kwd_patterns:
+                    raise Unsupported('class pattern with sub-patterns')
+                from . import models
+                return self.truth(models.m_isinstance(self, subject, self.ev(p.cls, env)))
+            if isinstance(p, ast.MatchValue):
+                return self.truth(self.compare(ast.Eq, subject, self.ev(p.value, env)))
+            if isinstance(p, ast.MatchSingleton):
+                return subject is p.value
+            if isinstance(p, ast.MatchOr):
+                for q in p.patterns:
+                    if self.branch(matches(q)):
+                        return True
+                return False
+            if isinstance(p, ast.MatchAs):
+                ok = True if p.pattern is None else matches(p.pattern)
+                if p.name is not None and self.branch(ok):
+                    env.set(p.name, subject)
+                    return True
+                return ok
+            raise Unsupported('match pattern ' + type(p).__name__)
+        for case in s.cases:
+            if not self.branch(matches(case.pattern)):
+                continue
+            if case.guard is not None and not self.branch(self.truth(self.ev(case.guard, env))):
+                continue
+            return self.block(case.body, env)
 
     def s_Nonlocal(self, s, env):
-        raise Unsupported('nonlocal statement')
+        e = env
+        while e.func is None and getattr(e, 'ifunc', None) is None and e.parent is not None:
+            e = e.parent                                  # the scope of the enclosing def (not a comprehension scope)
+        if not hasattr(e, 'nonlocals'):
+            e.nonlocals = set()
+        e.nonlocals.update(s.names)
+        for n in s.names:
+            e.loc.pop(n, None)
+
+    def s_Global(self, s, env):
+        raise Unsupported('global statement')
 
     def s_Assign(self, s, env):
         v = self.ev(s.value, env)
@@ -842,6 +896,19 @@ class Interp:
                 raise RaiseEx(ex)
         elif isinstance(t, (ast.Tuple, ast.List)):
             vs = self.iterate(v)
+            stars = [i for i, e in enumerate(t.elts) if isinstance(e, ast.Starred)]
+            if len(stars) > 1:
+                raise Unsupported('two starred targets')
+            if stars:
+                i, after = stars[0], len(t.elts) - stars[0] - 1
+                if len(vs) < len(t.elts) - 1:
+                    raise RaiseEx(ValueError('not enough values to unpack'))
+                for a, b in zip(t.elts[:i], vs[:i]):
+                    self.assign(a, b, env)
+                self.assign(t.elts[i].value, list(vs[i:len(vs) - after]), env)
+                for a, b in zip(t.elts[i + 1:], vs[len(vs) - after:]):
+                    self.assign(a, b, env)
+                return
             if len(vs) != len(t.elts):
                 raise RaiseEx(ValueError('unpack'))
             for a, b in zip(t.elts, vs):
@@ -1461,6 +1528,16 @@ class Interp:
         cf = lookup_special(b, '__contains__')
         if cf is not None and is_repo_func(cf):
             return self.call(cf, [b, a], {})
+        if isinstance(b, range) and is_sym(a) and a.k in ('int', 'real', 'bool'):
+            # x in range(lo, hi, step): an integer value with lo <= x < hi (resp. hi < x <= lo) on the stride
+            x = to_real(a) if a.k == 'real' else to_int(a)
+            whole = z3.IsInt(x) if a.k == 'real' else z3.BoolVal(True)
+            xi = z3.ToInt(x) if a.k == 'real' else x
+            if b.step > 0:
+                inside = z3.And(xi >= b.start, xi < b.stop)
+            else:
+                inside = z3.And(xi <= b.start, xi > b.stop)
+            return Sym(z3.And(whole, inside, (xi - b.start) % abs(b.step) == 0), 'bool')
         if deep_has_sym(a):
             raise Unsupported(f'`in` on {type(b).__name__} with symbolic probe')
         try:
@@ -1469,6 +1546,27 @@ class Interp:
             raise
         except Exception as ex:
             raise RaiseEx(ex)
+
+    def _identical(self, a, b):
+        """`a is b`.  True / False / None are singletons, so identity of a (symbolic) bool with a bool is equality of the truth
+        values; identity of other symbolic primitives (small-int caching, string interning) is not modelled"""
+        sa, sb = is_sym(a), is_sym(b)
+        if not sa and not sb:
+            return a is b
+        x, y = (a, b) if sa else (b, a)
+        if x.k == 'bool':
+            if isinstance(y, bool):
+                return x if y else Not(x)
+            if is_sym(y) and y.k == 'bool':
+                return Sym(x.t == y.t, 'bool')
+            if is_sym(y):
+                return False
+            return False                              # a bool is never None / an object of another type
+        if is_sym(y) or isinstance(y, (int, float, str)):
+            if is_sym(y) and y.k == 'bool' or isinstance(y, bool):
+                return False
+            raise Unsupported('identity (`is`) of symbolic numbers / strings')
+        return False                                  # a number / string is never None or another kind of object
 
     def _hashed_contains(self, a, b):
         # hash(ExcelType) == hash(value); equality by __eq__: expand over the keys
@@ -1481,10 +1579,9 @@ class Interp:
         return False
 
     def compare(self, op, a, b):
-        if op is ast.Is:
-            return a is b
-        if op is ast.IsNot:
-            return a is not b
+        if op in (ast.Is, ast.IsNot):
+            same = self._identical(a, b)
+            return same if op is ast.Is else Not(same)
         if op is ast.In:
             return self.contains(a, b)
         if op is ast.NotIn:
